@@ -262,7 +262,7 @@ func (fg *FG) call0(st *State, cc *ssa.CallCommon, in ssa.Instruction, resultOf 
 		fg.assume(fmt.Sprintf("(>= %s %s)", na, a))
 	}
 	fg.applyModifies(st, c, env, in)
-	fg.forgetLastSel(st)
+	fg.forgetLastSel(st, c)
 	// results
 	rnames := resultNames(c, sig)
 	var results []Val
@@ -510,8 +510,43 @@ func shortTypeBase(t types.Type) string {
 // is what makes "Unmarshal(Marshal(v)) yields v, whatever the target held before" true for T.
 func (fg *FG) typeFacts(c *Contract, env *Env, in ssa.Instruction, label string) {
 	for _, tf := range c.TypeFacts {
-		t, _ := env.resolveType(tf[1])
 		why := ""
+		if tf[0] == "method" {
+			// "<type>.<method> <key>": method lookup on the type resolves to the function with that key
+			parts := strings.Fields(tf[1])
+			i := strings.LastIndex(parts[0], ".")
+			t, _ := env.resolveType(parts[0][:i])
+			if t == nil {
+				why = "cannot resolve type"
+			} else {
+				sel := types.NewMethodSet(t).Lookup(nil, parts[0][i+1:])
+				if sel == nil {
+					if n, ok := types.Unalias(t).(*types.Pointer); ok {
+						if nn, ok := types.Unalias(n.Elem()).(*types.Named); ok {
+							sel = types.NewMethodSet(t).Lookup(nn.Obj().Pkg(), parts[0][i+1:])
+						}
+					}
+				}
+				if sel == nil {
+					why = "no such method"
+				} else if f := fg.g.prog.FuncValue(sel.Obj().(*types.Func)); f == nil || fg.g.keyOf(f) != parts[1] {
+					got := "?"
+					if f != nil {
+						got = fg.g.keyOf(f)
+					}
+					why = "the method is " + got
+				}
+			}
+			goal := "true"
+			src := "typefact method " + tf[1]
+			if why != "" {
+				goal = "false"
+				src += ": " + why
+			}
+			fg.oblig("pre", fmt.Sprintf("pre:%s#typefact.method.%s@%s", c.Key, sanitize(parts[0]), label), "", fg.guard(), goal, src, fg.posOf(instrPos(in)))
+			continue
+		}
+		t, _ := env.resolveType(tf[1])
 		if t == nil {
 			why = "cannot resolve type"
 		} else {
@@ -649,7 +684,7 @@ func (fg *FG) applyContract(st *State, c *Contract, callee *ssa.Function, sig *t
 	na := fg.havocHeap(st, "$alloc")
 	fg.assume(fmt.Sprintf("(>= %s %s)", na, a))
 	fg.applyModifies(st, c, env, in)
-	fg.forgetLastSel(st)
+	fg.forgetLastSel(st, c)
 	rnames := resultNames(c, sig)
 	var results []Val
 	for i := 0; i < sig.Results().Len(); i++ {
@@ -947,6 +982,9 @@ func (fg *FG) frameCheckEntry(st *State, m modEntry, in ssa.Instruction) {
 	if l.Ref == "" {
 		return
 	}
+	if l.Kind == LGhost && (fg.g.ct.Volatile[strings.TrimPrefix(l.Heap, "G_any_")] || fg.g.ct.Balanced[strings.TrimPrefix(l.Heap, "G_any_")]) {
+		return // volatile ghosts and balanced counters need no frame permission
+	}
 	var alts []string
 	alts = append(alts, fmt.Sprintf("(>= %s %s)", l.Ref, fg.alloc0))
 	if l.Kind != LGhost {
@@ -1010,7 +1048,9 @@ func (fg *FG) builtin(st *State, b *ssa.Builtin, cc *ssa.CallCommon, in ssa.Inst
 			return []Val{{T: fmt.Sprint(arr.Len()), Ty: types.Typ[types.Int]}}
 		case *types.Map:
 			_, ml := fg.mapFamilies(u)
-			return []Val{{T: fmt.Sprintf("(select %s %s)", fg.heap(st, ml, ""), a.T), Ty: types.Typ[types.Int]}}
+			t := fmt.Sprintf("(select %s %s)", fg.heap(st, ml, ""), a.T)
+			fg.assume(fmt.Sprintf("(>= %s 0)", t)) // the number of entries of a map is never negative
+			return []Val{{T: t, Ty: types.Typ[types.Int]}}
 		case *types.Chan:
 			fam := "CH_" + b.Name()
 			fg.heapSort[fam] = "(Array Int Int)"
